@@ -385,34 +385,62 @@ pub mod lanes {
     use std::process::Command;
     use vkit::Monitor;
 
-    pub fn run(mon: &Monitor, lane: &str, arg: &str, extra_arg: &str) {
+    pub struct Lane {
+        lane: String,
+        arg: String,
+        handle: std::thread::JoinHandle<(String, String, String, f64)>,
+    }
+
+    /// Start the supplementary sanitizer lanes of a thorough run; they build (own target
+    /// directories) and run while the behavioural workload runs, and are joined at the end.
+    pub fn start(mon: &Monitor, specs: &[(&str, &str, &str)]) -> Vec<Lane> {
         if mon.quick() || std::env::var("VERIF_NO_LANES").is_ok() {
-            return;
+            return Vec::new();
         }
-        let script = mon.root.join("sanit").join(format!("{lane}_lane.sh"));
-        let t0 = std::time::Instant::now();
-        let mut cmd = Command::new("bash");
-        cmd.arg(&script).arg(arg);
-        if !extra_arg.is_empty() {
-            cmd.arg(extra_arg);
-        }
-        let out = cmd.output();
-        let (status, line, tail) = match out {
-            Err(e) => ("unavailable".to_string(), format!("spawn failed: {e}"), String::new()),
-            Ok(o) => {
-                let txt = String::from_utf8_lossy(&o.stdout).to_string();
-                let line = txt.lines().rev().find(|l| l.starts_with("LANE ")).unwrap_or("").to_string();
-                let status = line.split_whitespace().find_map(|w| w.strip_prefix("status=")).unwrap_or("unavailable").to_string();
-                let tail: String = txt.lines().rev().skip(1).take(40).collect::<Vec<_>>().into_iter().rev().collect::<Vec<_>>().join("\n");
-                (status, line, tail)
+        specs
+            .iter()
+            .map(|(lane, arg, extra)| {
+                let script = mon.root.join("sanit").join(format!("{lane}_lane.sh"));
+                let (lane_s, arg_s, extra_s) = (lane.to_string(), arg.to_string(), extra.to_string());
+                // a lane that cannot finish in its own time box is recorded as unavailable; it never
+                // turns the whole check into a watchdog kill
+                let cap = match *lane {
+                    "asan" => 2400,
+                    "miri" => 1800,
+                    _ => 1200,
+                };
+                let handle = std::thread::spawn(move || {
+                    let t0 = std::time::Instant::now();
+                    let mut cmd = Command::new("timeout");
+                    cmd.arg("--signal=KILL").arg(cap.to_string()).arg("bash").arg(&script).arg(&arg_s);
+                    if !extra_s.is_empty() {
+                        cmd.arg(&extra_s);
+                    }
+                    match cmd.output() {
+                        Err(e) => ("unavailable".to_string(), format!("spawn failed: {e}"), String::new(), t0.elapsed().as_secs_f64()),
+                        Ok(o) => {
+                            let txt = String::from_utf8_lossy(&o.stdout).to_string();
+                            let line = txt.lines().rev().find(|l| l.starts_with("LANE ")).unwrap_or("").to_string();
+                            let status = line.split_whitespace().find_map(|w| w.strip_prefix("status=")).unwrap_or("unavailable").to_string();
+                            let tail: String = txt.lines().rev().skip(1).take(40).collect::<Vec<_>>().into_iter().rev().collect::<Vec<_>>().join("\n");
+                            (status, line, tail, t0.elapsed().as_secs_f64())
+                        }
+                    }
+                });
+                Lane { lane: lane_s, arg: arg.to_string(), handle }
+            })
+            .collect()
+    }
+
+    pub fn join(mon: &Monitor, lanes: Vec<Lane>) {
+        for l in lanes {
+            let (status, line, tail, wall) = l.handle.join().unwrap_or_else(|_| ("unavailable".into(), "lane thread panicked".into(), String::new(), 0.0));
+            let rec = json!({"lane": l.lane, "workload": l.arg, "status": status, "wall_s": wall, "summary": line});
+            mon.extra(&format!("sanitizer_lane.{}.{}", l.lane, l.arg), rec);
+            mon.count(&format!("lanes.{}.{}", l.lane, status), 1);
+            if status == "report" {
+                mon.violation(&format!("sanitizer/{}/{}", l.lane, l.arg), json!({"summary": line, "report_tail": tail}));
             }
-        };
-        let rec = json!({"lane": lane, "workload": arg, "status": status, "wall_s": t0.elapsed().as_secs_f64(), "summary": line});
-        let key = format!("sanitizer_lane.{lane}.{arg}");
-        mon.extra(&key, rec);
-        mon.count(&format!("lanes.{lane}.{status}"), 1);
-        if status == "report" {
-            mon.violation(&format!("sanitizer/{lane}/{arg}"), json!({"summary": line, "report_tail": tail}));
         }
     }
 }
